@@ -14,7 +14,7 @@ Beyond model-vs-C equality the FIFO property itself is evaluated on the C output
 import os, subprocess, threading
 import vlib
 
-PROP_FILES = ["Properties_C08.v"]
+PROP_FILES = ["Properties_C08.v", "Properties_gen.v"]
 SIGS = ("mrb-near-capacity-oob", "mrb-full-wrap-message-lost", "mrb-marker-past-end")
 
 
